@@ -31,12 +31,21 @@ FLAVOURS_8 = [
     "iteration and accumulation: a generator consumed twice, a list mutated while iterated, a shared mutable default, a result built in a different order, deduplication by the wrong key, an early break",
     "the meaning of 'empty' and 'absent' at a boundary: '' vs None vs missing key vs '/' vs '?', empty label, empty segment, empty list of items, zero-length match of a regex",
 ]
+FLAVOURS_9 = [
+    "a unit mix-up: characters vs bytes, code points vs escapes, an index into one string used on another (lowered, stripped, unquoted), labels vs dots, segments vs slashes",
+    "a condition weakened or strengthened by one connective: `and` for `or`, a dropped `not`, `is None` for falsy, `in` on a string for `in` on a list, `startswith` for `==`",
+    "state that outlives a call: a module-level cache or compiled table, a mutable class attribute shared by instances, an iterator consumed by a first pass, a default argument mutated",
+    "a rule applied at the wrong level: once for the whole string instead of per item / per label / per segment (or the reverse), the first occurrence instead of the last, all instead of the outermost",
+    "round-tripping and idempotence: a value escaped twice or unescaped twice, a second application that changes the result, encode / decode pairs that disagree on one reserved character",
+]
 if int(R) == 6:
     FLAVOURS = FLAVOURS_6
 if int(R) == 7:
     FLAVOURS = FLAVOURS_7
-if int(R) >= 8:
+if int(R) == 8:
     FLAVOURS = FLAVOURS_8
+if int(R) >= 9:
+    FLAVOURS = FLAVOURS_9
 TEMPLATE = open(os.path.join(os.path.dirname(os.path.abspath(__file__)), "seed_prompt_template.txt")).read()
 props = [json.loads(l) for l in open("/verif/properties.jsonl")]
 for i, p in enumerate(props):
